@@ -140,6 +140,64 @@ var scenarios = []scenario{
 			r.RunToEnd(g2)
 			r.Drain(nil)
 		}},
+	{name: "entries-sync-during-ad-sync", cfg: schedrv.Config{NPub: 1, ChainLen: 4},
+		what: "SyncEntries (own ScopedBlockHook) of a publisher starts while an explicit SyncAdChain of the same publisher is inside handler.handle",
+		run: func(r *schedrv.Run) {
+			pubN(r, 0, 2)
+			a := explicit(r, 0)
+			r.RunUntil(a, schedrv.YHandleLocked)
+			r.Do(schedrv.Decision{K: "ent", P: 0})
+			r.RunToEnd(a)
+			r.Drain(nil)
+		}},
+	{name: "ad-syncs-during-entries-sync", cfg: schedrv.Config{NPub: 1, ChainLen: 4},
+		what: "an announce-triggered and an explicit ad-chain sync of a publisher start while a SyncEntries of the same publisher is inside handler.handle (between two of its hook calls)",
+		run: func(r *schedrv.Run) {
+			pubN(r, 0, 2)
+			r.Do(schedrv.Decision{K: "ent", P: 0})
+			e := r.LastThread()
+			r.RunUntil(e, schedrv.YHook)
+			g := announce(r, 0, 2)
+			if g >= 0 {
+				r.RunUntilOrTry(g, schedrv.YHandleLocked)
+			}
+			explicit(r, 0)
+			r.RunToEnd(e)
+			r.Drain(nil)
+		}},
+	{name: "stalled-publisher-then-reannounce", cfg: schedrv.Config{NPub: 1, ChainLen: 4, HTTPms: 700},
+		what: "the publisher accepts the block request of an announce-triggered sync and never answers (HTTP timeout 0.7 s); afterwards the same head is announced again",
+		run: func(r *schedrv.Run) {
+			pubN(r, 0, 2)
+			g := announce(r, 0, 2)
+			r.RunUntil(g, schedrv.YHandleLocked)
+			r.Do(schedrv.Decision{K: "go", T: g, Fail: true, Stall: true})
+			r.RunToEnd(g)
+			g2 := announce(r, 0, 2)
+			if g2 >= 0 {
+				r.RunToEnd(g2)
+			}
+			r.Drain(nil)
+		}},
+	{name: "stalled-publisher-others-continue", cfg: schedrv.Config{NPub: 2, Cap: 2, ChainLen: 4, HTTPms: 700},
+		what: "one publisher stalls during its announce-triggered sync while another publisher's sync is running; then the first publishes and announces a newer head",
+		run: func(r *schedrv.Run) {
+			pubN(r, 0, 1)
+			pubN(r, 1, 2)
+			g0 := announce(r, 0, 1)
+			g1 := announce(r, 1, 2)
+			r.RunUntil(g0, schedrv.YHandleLocked)
+			r.RunUntil(g1, schedrv.YHandleLocked)
+			r.Do(schedrv.Decision{K: "go", T: g0, Fail: true, Stall: true})
+			r.RunToEnd(g1)
+			r.RunToEnd(g0)
+			pubN(r, 0, 1)
+			g2 := announce(r, 0, 2)
+			if g2 >= 0 {
+				r.RunToEnd(g2)
+			}
+			r.Drain(nil)
+		}},
 	{name: "relayed-then-announced", cfg: schedrv.Config{NPub: 1, ChainLen: 4, Filter: true},
 		what: "a peer the allow filter rejects announces the publisher's head first, then the publisher announces the same head",
 		run: func(r *schedrv.Run) {
@@ -248,6 +306,7 @@ var scenarios = []scenario{
 type genCfg struct {
 	anns, exps, rms int
 	rejs, flips     int
+	ents            int
 	failPct         int
 }
 
@@ -256,6 +315,7 @@ func randomRun(rng *vlib.Rand, cfg schedrv.Config, g genCfg) *schedrv.Run {
 	r := schedrv.NewRun(cfg)
 	lastAnn := make([]int, cfg.NPub)
 	denied := make([]bool, cfg.NPub)
+	reann := map[[2]int]int{}
 	// every publisher starts with one advertisement
 	for p := 0; p < cfg.NPub; p++ {
 		r.Do(schedrv.Decision{K: "pub", P: p})
@@ -314,6 +374,28 @@ func randomRun(rng *vlib.Rand, cfg schedrv.Config, g genCfg) *schedrv.Run {
 				opts = append(opts, opt{schedrv.Decision{K: "exp", P: p}, 3})
 			}
 		}
+		if g.ents > 0 {
+			for p := 0; p < cfg.NPub; p++ {
+				opts = append(opts, opt{schedrv.Decision{K: "ent", P: p}, 3})
+			}
+		}
+		// a head whose announce-triggered sync failed may be announced again (the failure
+		// un-caches it in the receiver)
+		if r.CanAnnounce() {
+			for p := 0; p < cfg.NPub; p++ {
+				c := lastAnn[p]
+				nerr := 0
+				for _, ev := range r.M.Events {
+					if ev.Err && ev.Pub == p && ev.Head == c {
+						nerr++
+					}
+				}
+				// the error event is sent after the CID was un-cached
+				if c > 0 && nerr > reann[[2]int{p, c}] && !denied[p] && r.M.LastTaken[p] == c && r.M.Latest[p] != c {
+					opts = append(opts, opt{schedrv.Decision{K: "ann", P: p, C: c}, 8})
+				}
+			}
+		}
 		if g.rms > 0 {
 			for p := 0; p < cfg.NPub; p++ {
 				opts = append(opts, opt{schedrv.Decision{K: "rm", P: p}, 2})
@@ -343,8 +425,14 @@ func randomRun(rng *vlib.Rand, cfg schedrv.Config, g genCfg) *schedrv.Run {
 			denied[d.P] = true
 		case "allow":
 			denied[d.P] = false
+		case "ent":
+			g.ents--
 		case "ann":
-			g.anns--
+			if d.C == lastAnn[d.P] {
+				reann[[2]int{d.P, d.C}]++
+			} else {
+				g.anns--
+			}
 			lastAnn[d.P] = d.C
 		case "exp":
 			g.exps--
@@ -401,6 +489,14 @@ func report(c *vlib.Ctx, name string, r *schedrv.Run, what string) {
 	}
 	if len(r.Removed) > 0 {
 		c.Count("kind:handler-removed")
+	}
+	for _, d := range r.Decisions {
+		if d.K == "ent" {
+			c.Count("entries-syncs")
+		}
+		if d.K == "go" && d.Stall {
+			c.Count("stalled-requests")
+		}
 	}
 	if r.Cfg.Filter {
 		c.Count("kind:allow-filter")
@@ -507,7 +603,7 @@ func main() {
 
 	// seeded random schedules
 	budget := time.Duration(c.Pick(35, 420)) * time.Second
-	maxRuns := c.Pick(700, 12000)
+	maxRuns := c.Pick(620, 12000)
 	rng := c.Rng.Fork("sched")
 	start := time.Now()
 	n := 0
@@ -522,6 +618,9 @@ func main() {
 		g := genCfg{anns: 2 + rng.Intn(3*npub+2), failPct: 15}
 		if cfg.Filter {
 			g.rejs, g.flips = 2+rng.Intn(5), 1+rng.Intn(3)
+		}
+		if rng.Intn(3) == 0 {
+			g.ents = 1 + rng.Intn(2)
 		}
 		switch rng.Intn(4) {
 		case 0: // announce-only
